@@ -5,7 +5,7 @@ from ..framework import Stage
 UNIT = 4
 PRESET = [(B, T, UNIT) for _, B, T in core.presets(UNIT)]
 P_UNI1, P_IND1, P_PSE1, P_UNI5, P_IND5, P_PSE5, P_EXT = PRESET
-NAMINGS3 = ["ints", "letters", "mixed1", "digits", "mixed3"]
+NAMINGS3 = ["ints", "letters", "mixed1", "digits", "mixed3", "mixedraw", "intish"]
 
 
 def multiples(s, ks=(2, 3)):
@@ -131,7 +131,8 @@ def cases(datasets, configs, schemes, flags=(1, 0), namings=("ints", "letters"),
                         continue        # documented IncompatibleArgumentsException
                     for ks in kseeds:
                         out.append({"D": D, "naming": namings[(k // 2 + ci) % len(namings)], "sch": list(s),
-                                    "cfg": cfg, "flag": f, "env": e, "kseed": ks + k, "entry": (k + ci) % 6})
+                                    "cfg": cfg, "flag": f, "env": e, "kseed": ks + k, "entry": (k + ci) % 7,
+                                    "schemeform": (k // 3 + ci) % 4})
     return out
 
 
